@@ -307,6 +307,11 @@ theorem crcvBlock_hostile (cap : Nat) (junk : UInt8) (hist : List Resp) (r : Res
     cases h
     exact ⟨fun s' hs' => (by cases hs'), fun d l hb => (by cases hb)⟩
   rw [if_neg hund] at h
+  by_cases hlastnum : m ≠ 0 ∧ 0xFFFFF ≤ num
+  · rw [if_pos hlastnum] at h
+    cases h
+    exact ⟨fun s' hs' => (by cases hs'), fun d l hb => (by cases hb)⟩
+  rw [if_neg hlastnum] at h
   have hm : m ≠ 0 → data.length = 2 ^ (szx + 4) := by
     intro hm0
     apply Classical.byContradiction
@@ -505,6 +510,9 @@ theorem crcvStep_perblock_payload (cap : Nat) (junk : UInt8) (st : Option Crcv) 
     by_cases hund : m ≠ 0 ∧ data.length ≠ 2 ^ (szx + 4)
     · rw [if_pos hund]; exact perBlockOk_inert r _ (Or.inl rfl)
     · rw [if_neg hund]
+      by_cases hlastnum : m ≠ 0 ∧ 0xFFFFF ≤ num
+      · rw [if_pos hlastnum]; exact perBlockOk_inert r _ (Or.inl rfl)
+      rw [if_neg hlastnum]
       cases he : r.etag with
       | some e =>
         simp only
